@@ -165,7 +165,7 @@ def check(run):
         solo.append(so)
     specs = specs + solo
     units = [shards.Unit("u_" + s.name.lower(), (glue_solo(s) if any(t.startswith("solo:") for t in s.tags) else glue(s)),
-                         meta={"enum_src": s.render()}, sig=s.signature()) for s in specs]
+                         meta={"enum_src": s.render(), "bare_src": s.render_bare()}, sig=s.signature()) for s in specs]
     run.rule = RULE
     samples = standard_flow(run, units, deps["std"], vmon, profiles=("debug",), tag="c08")
     pick_samples(run, samples, {u.name: u for u in units})
